@@ -10,7 +10,7 @@ rewrites) are decided for all inputs of the alphabet.
 
 import json, itertools
 import numpy
-from .. import core, terms as T, irspace, irtools, loopspace as LS
+from .. import core, terms as T, irspace, irtools, loopspace as LS, extraspace as XS
 
 LEVEL = 'exploration'
 RULE = ('for every term (float space depth<=2, integer alphabet depth<=2 with exhaustive int valuations in {-2..2}, loop programs) every distinct '
@@ -42,6 +42,7 @@ def shards(tier, seed):
     n = len(LS.programs(tier))
     for lo in range(0, n, LOOP_CHUNK):
         out.append({'kind': 'loops', 'lo': lo, 'hi': min(n, lo + LOOP_CHUNK)})
+    out += [{'kind': 'extra', 'lo': lo, 'hi': lo + 160} for lo in range(0, len(XS.terms(tier)), 160)]
     for s in irspace.shards(PROFILES[tier], NPARTS[tier]):
         s['kind'] = 'terms'
         out.append(s)
@@ -150,6 +151,8 @@ def check_term(term, res=None):
     envs = T.valuations(args, nsets=1, int_values=INT_VALUES)
     nodes = dag_nodes(node)
     try:
+        if not irtools.simplifies(node):
+            raise RuntimeError('simplifier fails: C01')
         simple = node.simplified
         if simple is not node:
             known = {id(n) for n in nodes}
@@ -219,7 +222,11 @@ def run_shard(spec, tier, seed):
     irtools.quiet()
     res = core.ShardResult()
     last = None
-    if spec['kind'] == 'loops':
+    if spec['kind'] == 'extra':
+        for fam, term in XS.terms(tier)[spec['lo']:spec['hi']]:
+            _one(term, res)
+            last = term
+    elif spec['kind'] == 'loops':
         for fam, prog in LS.programs(tier)[spec['lo']:spec['hi']]:
             for term in LS.flatten(prog):
                 _one(term, res)
